@@ -24,18 +24,18 @@ func c19ChecksumTotal(c *kit.Ctx, m *c19Model, r *kit.Rule, fn *types.Func) {
 	c.Analysed(f)
 	info := f.Info()
 	param := f.Params()[0]
-	// one range over the whole argument, no way out of it
+	// one loop over the whole argument (range, or the equivalent counting
+	// loop), no way out of it
 	var rs *ast.RangeStmt
 	nRanges := 0
-	ast.Inspect(f.Body, func(n ast.Node) bool {
-		if x, ok := n.(*ast.RangeStmt); ok && kit.ObjOf(info, x.X) == types.Object(param) {
-			rs = x
+	for _, l := range f.SliceLoops(f.Body) {
+		if kit.ObjOf(info, l.X) == types.Object(param) {
+			rs = l
 			nRanges++
 		}
-		return true
-	})
-	if nRanges != 1 || rs.Value == nil {
-		o.Undecided("%s does not consist of one `for _, b := range <argument>` loop", fn.Name())
+	}
+	if nRanges != 1 || kit.LoopElemVar(info, rs) == nil {
+		o.Undecided("%s does not consist of one loop over every byte of its argument", fn.Name())
 		return
 	}
 	early := false
